@@ -238,6 +238,8 @@ def cli_presentations(ctx, tspecs, k, rw_name, rnd, workdir, hashseeds):
     ctx.case(spec, nontrivial(tspecs), ["cli-cross-process", "rewriter:" + rw_name, "k=%d" % k])
     distinct = len({json.dumps(t) for t in tspecs})
     results = []
+    import datetime
+    day0 = datetime.date.today()
     for p, hs in enumerate(hashseeds):
         db = os.path.join(workdir, f"p{p}.sqlite3")
         if os.path.exists(db):
@@ -268,6 +270,28 @@ def cli_presentations(ctx, tspecs, k, rw_name, rnd, workdir, hashseeds):
         except stubread.StubError:
             ctx.label("skipped:stub-not-canonicalisable(C11/C12 findings)")
             return
+    if distinct >= 2 and len(hashseeds) >= 2 and day0 == datetime.date.today():
+        # a row limit that BINDS: which traces survive it may depend on the set of stored traces, never on the order, the
+        # duplication or the batches they arrived in (all rows carry the same date; a run that crosses midnight is skipped)
+        lim = max(1, distinct // 2)
+        limited = []
+        for p, hs in list(enumerate(hashseeds))[:2]:
+            env = dict(os.environ, MTV_DB=os.path.join(workdir, f"p{p}.sqlite3"), MTV_K=str(k), MTV_RW=rw_name, PYTHONHASHSEED=str(hs))
+            pr = subprocess.run([sys.executable, "-m", "monkeytype", "-c", "fx_cfg:CONFIG", "--limit", str(lim), "stub", "fx_target"], env=env, capture_output=True, text=True, cwd=workdir)
+            if pr.returncode != 0 or not pr.stdout.strip():
+                limited = None
+                break
+            try:
+                limited.append((pr.stdout, canonical(pr.stdout)))
+            except stubread.StubError:
+                limited = None
+                break
+        if limited:
+            ctx.label("binding-row-limit")
+            d = diff(limited[0][1], limited[1][1])
+            if d:
+                return ctx.fail("C14/stub-depends-on-presentation-or-process", spec + ["binding-limit"],
+                                f"--limit {lim} (fewer than the {distinct} distinct traces), same trace set stored in another order / other batches: {d}\n--- first\n{limited[0][0][:900]}\n--- other\n{limited[1][0][:900]}", raise_=False)
     p0, _, text0, c0 = results[0]
     for p, hs, text, c in results[1:]:
         d = diff(c0, c)
